@@ -14,7 +14,7 @@ ID = "C15"
 RULE = (
     "populations = all sets of n distinct points of small integer lattices (2-D 4x4: n<=3 quick / n<=5 thorough; 2-D 3x3: n<=5 / n<=6; 1-D and "
     "3-D analogues) x all fitness assignments over {0,1,2} (every weak ordering incl. ties with the best and ties at the truncation cut) x "
-    "(distance factor, truncation) in {(2,1), (1,0.5), (3,0.7), (1.5,0.34)} x both directions x scales {1, 1e-9 around 1.0 (tightly converged: "
+    "(distance factor, truncation) in {(2,1), (1,0.5), (3,0.7), (1.5,0.34), (0,1), (0,0.7)} x both directions x scales {1, 1e-9 around 1.0 (tightly converged: "
     "distinct genomes whose printed form coincides)}; metamorphic re-runs (all n! input orders, translation by a lattice vector, scaling by 4 "
     "and 1/4, min/max mirroring) on the 3x3 cases; thorough adds 60-point clustered / collinear / grid populations in dimensions 1-8; each case "
     "is one call of the real NearestBetterClustering(...).cluster() compared with an independent O(n^2) reference; non-trivial = a case with "
@@ -26,7 +26,7 @@ ASSUMPTIONS = [
     "truncation keeping zero individuals is outside the statement ('the best one' does not exist)",
 ]
 EXPLANATION = "states = distinct (population, fitness vector, direction, parameters) cases; transitions = applications of cluster()"
-PARAMS = [(2.0, 1.0), (1.0, 0.5), (3.0, 0.7), (1.5, 0.34)]
+PARAMS = [(2.0, 1.0), (1.0, 0.5), (3.0, 0.7), (1.5, 0.34), (0.0, 1.0), (0.0, 0.7)]
 
 _P = {}
 
@@ -166,6 +166,7 @@ def units(tier, seed):
                 us.append({"kind": "lattice", "dims": dims, "sets": sets[i : i + chunk], "scales": scales, "params": params, "meta": meta})
 
     add((4, 4), (2, 3) if q else (2, 3, 4, 5), [0, 1], list(range(4)), chunk=40 if q else 12)
+    add((3, 3), (2, 3, 4), [0, 1], [4, 5], chunk=20)
     add((3, 3), (4, 5) if q else (4, 5, 6), [0, 1], [0, 2] if q else list(range(4)), chunk=6 if q else 2)
     add((3, 3), (2, 3, 4), [0], [0, 2], meta=True, chunk=8)
     add((6,), (2, 3, 4), [0, 1], list(range(4)), chunk=30)
